@@ -240,7 +240,7 @@ func (c *Checker) RunGoals(goals []*Goal, timeout time.Duration) []*ObligResult 
 					qf = append(qf, it)
 				}
 				if dropped {
-					q := RenderQuery(c.E.Specs.Prelude, qf, g.Goal, "")
+					q := RenderQuery(c.E.Specs.Prelude, qf, g.Goal, lazyDecls(g))
 					r := c.Solver.SolveQuick(g.Oblig+"-qf", q)
 					if r.Status == "unsat" {
 						results[i] = gr{g, r}
@@ -248,7 +248,7 @@ func (c *Checker) RunGoals(goals []*Goal, timeout time.Duration) []*ObligResult 
 					}
 				}
 			}
-			q := RenderQuery(c.E.Specs.Prelude, g.Prefix, g.Goal, "")
+			q := RenderQuery(c.E.Specs.Prelude, g.Prefix, g.Goal, lazyDecls(g))
 			results[i] = gr{g, c.Solver.Solve(g.Oblig, q)}
 		}()
 	}
@@ -330,4 +330,19 @@ func sortedKeys(m map[string]bool) []string {
 	}
 	sort.Strings(out)
 	return out
+}
+
+func lazyDecls(g *Goal) string {
+	if g.Run == nil {
+		return ""
+	}
+	root := g.Run
+	for root.parent != nil {
+		root = root.parent
+	}
+	var sb strings.Builder
+	for _, it := range root.LazyDecls {
+		fmt.Fprintf(&sb, "(declare-const %s %s)\n", it.Name, it.Sort.SMT())
+	}
+	return sb.String()
 }
